@@ -879,25 +879,25 @@ val intermediateOption = {val_name}.option() ?: return null
                             OutType::Opaque(OpaquePath{tcx_id: id, ..}) => {
                                 let resolved = self.tcx.resolve_opaque(*id);
                                 if !resolved.attrs.custom_errors {
-                                    panic!("Opaque type {:?} must have the `error` attribute to be used as an error result", resolved.name);
+                                    self.errors.push_error(format!("Opaque type {:?} must have the `error` attribute to be used as an error result", resolved.name));
                                 }
                             },
                             OutType::Struct(ReturnableStructPath::Struct(path)) => {
                                 let resolved = self.tcx.resolve_struct(path.tcx_id);
                                 if !resolved.attrs.custom_errors {
-                                    panic!("Struct type {:?} must have the `error` attribute to be used as an error result", resolved.name);
+                                    self.errors.push_error(format!("Struct type {:?} must have the `error` attribute to be used as an error result", resolved.name));
                                 }
                             },
                             OutType::Struct(ReturnableStructPath::OutStruct(path)) => {
                                 let resolved = self.tcx.resolve_out_struct(path.tcx_id);
                                 if !resolved.attrs.custom_errors {
-                                    panic!("Struct type {:?} must have the `error` attribute to be used as an error result", resolved.name);
+                                    self.errors.push_error(format!("Struct type {:?} must have the `error` attribute to be used as an error result", resolved.name));
                                 }
                             }
                             Type::Enum(enm) => {
                                 let resolved = enm.resolve(self.tcx);
                                     if !resolved.attrs.custom_errors {
-                                        panic!("Struct type {:?} must have the `error` attribute to be used as an error result", resolved.name);
+                                        self.errors.push_error(format!("Struct type {:?} must have the `error` attribute to be used as an error result", resolved.name));
                                     }
                             }
                             _ => {}
